@@ -71,7 +71,7 @@ def gen_case(rng):
         safe = [w for w in words if w not in ("\xa0", " ")]
         text = lambda g: " ".join(g.choice(safe) for _ in range(g.choice([1, 1, 2, 3, 6])))  # noqa: E731
     root = trees.gen_tree(rng, max_depth=2, max_kids=3, nss=["", "", "urn:x", "urn:y"], p_comment=0.1, p_pi=0.08,
-                          text=text, inherit_ns=0.7)
+                          text=text, inherit_ns=0.7, stress=charset_of(enc) == "uni")
     if charset_of(enc) != "uni":
         root = restrict_attrs(root, charset_of(enc))
     n_pro = rng.choice([0, 0, 1, 1, 2, 3, 5])
@@ -86,7 +86,7 @@ def gen_case(rng):
         "fmt": fmt,
         "via": rng.choice(["save", "write", "str"]),
         "insert_order": rng.choice(["append", "prepend", "insert"]),
-        "newroot": trees.gen_tree(rng, max_depth=1, max_kids=2, nss=["", "urn:x"], text=text) if rng.random() < 0.5 else None,
+        "newroot": trees.gen_tree(rng, max_depth=1, max_kids=2, nss=["", "urn:x"], text=text, stress=False) if rng.random() < 0.5 else None,
         "drop": rng.choice([[False, False], [True, False], [False, True], [True, True]]),
     }
     return case
